@@ -40,6 +40,13 @@ RECURSIVE Deep(_, _, _, _)
 Deep(t, f, d, inner) == IF d = 0 THEN Tlv22(t, inner) ELSE Tlv22(t, Zeros(f) \o Deep(t, f, d - 1, inner))
 DeepGrid(lazy) == {[ep |-> "LinkState.unpack", b |-> Deep(t, f, d, inner)] :
                      t \in LsAttrTypes, f \in {0, 8, 22}, d \in {2, 8, 14, 18, 22, 40}, inner \in {<<>>, <<0>>, Zeros(8), Zeros(22)}}
+\* text-like bodies of 17..255 octets for every link-state TLV type (names, opaque data): long runs of name characters followed
+\* by one that is none, dotted labels, separators only (a decoder that matches its value against a pattern does bounded work)
+TextRun(n, c) == [i \in 1..n |-> c]
+TextGrid(lazy) == {[ep |-> "LinkState.unpack", b |-> Tlv22(t, bd)] : t \in LsAttrTypes,
+                     bd \in {TextRun(n, 97) \o <<32, 40, 108, 97, 98, 41>> : n \in {17, 24, 28, 32, 40, 100, 249}}
+                          \cup {TextRun(n, 45) \o <<33>> : n \in {30, 254}} \cup {Rep(n, <<97, 46>>) \o <<47>> : n \in {15, 60, 127}}
+                          \cup {TextRun(255, 97), TextRun(255, 46), Rep(40, <<97, 98, 45, 49, 95>>) \o <<0>>}}
 \* OPEN messages (body after the header) carrying one capability of every code the decoder interprets (and unknown ones)
 \* with every value length 0..16 x body pattern, alone and after a valid multiprotocol capability, one parameter each or
 \* packed together; plus capability / parameter length fields that lie
@@ -98,7 +105,7 @@ ShortInputs(lazy) == {[ep |-> "*", b |-> s] : s \in Strings(MAXSHORT)}
 
 VARIABLE vec
 Vecs == CASE FAMILY = "lsgrid" -> LsGrid(0) [] FAMILY = "sidgrid" -> SidGrid(0) [] FAMILY = "short" -> ShortInputs(0)
-          [] FAMILY = "nestgrid" -> NestGrid(0) [] FAMILY = "fslen" -> FsLenGrid(0) [] FAMILY = "capgrid" -> CapGrid(0) [] FAMILY = "attrgrid" -> AttrGrid(0) [] FAMILY = "mpgrid" -> MpGrid(0) [] FAMILY = "lsnlri" -> LsNlriGrid(0) [] FAMILY = "deepgrid" -> DeepGrid(0)
+          [] FAMILY = "nestgrid" -> NestGrid(0) [] FAMILY = "fslen" -> FsLenGrid(0) [] FAMILY = "capgrid" -> CapGrid(0) [] FAMILY = "attrgrid" -> AttrGrid(0) [] FAMILY = "mpgrid" -> MpGrid(0) [] FAMILY = "lsnlri" -> LsNlriGrid(0) [] FAMILY = "deepgrid" -> DeepGrid(0) [] FAMILY = "textgrid" -> TextGrid(0)
 Init == vec \in Vecs
 Next == FALSE /\ UNCHANGED vec
 Emit == PrintT("@W " \o ToJson(vec))
